@@ -88,6 +88,79 @@ func (cd *codec) render(v any) any {
 	return s
 }
 
+// dirtyDecode makes the ReadFrom-style decoders start from a value that still
+// holds data of an earlier use (a decoder must overwrite every field).
+var dirtyDecode bool
+
+// chunkReader hands out at most k bytes per Read call (k drawn per call).
+type chunkReader struct {
+	r   *bytes.Reader
+	rng *vh.Rand
+	max int
+}
+
+func (c *chunkReader) Read(p []byte) (int, error) {
+	if len(p) == 0 {
+		return 0, nil
+	}
+	n := 1
+	if c.max > 1 {
+		n = 1 + c.rng.Intn(c.max)
+	}
+	if n > len(p) {
+		n = len(p)
+	}
+	return c.r.Read(p[:n])
+}
+
+// otherReaders: the same bytes through a reader that delivers them in pieces,
+// and into a decoder target that was used before: same value, same framing.
+func otherReaders(r *vh.Runner, c *vh.Case, cd *codec, v any, b []byte) {
+	if strings.HasPrefix(cd.name, "certs.Certificate.PEM") {
+		return // reads to the end of its input by construction
+	}
+	full := append(append([]byte{}, b...), sentinel...)
+	rng := vh.NewRand(uint64(len(b)), "c18-readers", cd.name)
+	for _, shape := range []string{"one-byte-reads", "short-reads", "reused-target"} {
+		rd := bytes.NewReader(full)
+		var src io.Reader = rd
+		switch shape {
+		case "one-byte-reads":
+			src = &chunkReader{r: rd, rng: rng, max: 1}
+		case "short-reads":
+			src = &chunkReader{r: rd, rng: rng, max: 7}
+		case "reused-target":
+			dirtyDecode = true
+		}
+		var v2 any
+		var err error
+		pan := safe(func() { v2, err = cd.dec(src) })
+		dirtyDecode = false
+		r.Count("decodes:"+shape, 1)
+		detail := map[string]any{"value": cd.render(v), "bytes": vh.HexCap(b, 200), "reader": shape}
+		switch {
+		case pan != "":
+			detail["panic"] = pan
+			c.Violate("C18:"+cd.name+":decode-panic:"+shape, detail)
+			return
+		case err != nil:
+			detail["err"] = err.Error()
+			c.Violate("C18:"+cd.name+":own-encoding-rejected:"+shape, detail)
+			return
+		}
+		if d := cd.eq(v, v2); d != "" {
+			detail["decoded"] = cd.render(v2)
+			c.Violate("C18:"+cd.name+":roundtrip-differs:"+shape+":"+d, detail)
+			return
+		}
+		if rest := full[len(full)-rd.Len():]; !bytes.Equal(rest, sentinel) {
+			detail["left_over"] = vh.HexCap(rest, 32)
+			c.Violate("C18:"+cd.name+":roundtrip-misframed:"+shape, detail)
+			return
+		}
+	}
+}
+
 // roundTrip: decode(encode(v)) == v and nothing is left over.
 func roundTrip(r *vh.Runner, c *vh.Case, cd *codec, v any) {
 	r.Count("evaluations", 1)
@@ -116,7 +189,9 @@ func roundTrip(r *vh.Runner, c *vh.Case, cd *codec, v any) {
 	}
 	if !bytes.Equal(rest, sentinel) {
 		c.Violate("C18:"+cd.name+":roundtrip-misframed", map[string]any{"value": cd.render(v), "bytes": vh.HexCap(b, 200), "left_over": vh.HexCap(rest, 32)})
+		return
 	}
+	otherReaders(r, c, cd, v, b)
 }
 
 // stable: for bytes the decoder accepts, re-encoding must succeed and decode
@@ -198,7 +273,11 @@ func randName(rng *vh.Rand) certs.Name {
 	return certs.Name{Type: certs.IDType(rng.Pick(0, 1, 2, 3, 4, 77, 255)), Label: rng.Bytes(n)}
 }
 
-func nameEq(a, b certs.Name) bool { return a.Type == b.Type && bytes.Equal(a.Label, b.Label) }
+// nameEq: same type and label bytes, and the same answer to IsZero (an empty
+// label is not "no name").
+func nameEq(a, b certs.Name) bool {
+	return a.Type == b.Type && bytes.Equal(a.Label, b.Label) && a.IsZero() == b.IsZero()
+}
 
 func randTime(rng *vh.Rand) time.Time {
 	switch rng.Intn(6) {
@@ -434,7 +513,14 @@ func codecs() []*codec {
 			_, err := n.WriteTo(&b)
 			return b.Bytes(), err
 		},
-		dec: func(r io.Reader) (any, error) { var n certs.Name; _, err := n.ReadFrom(r); return n, err },
+		dec: func(r io.Reader) (any, error) {
+			var n certs.Name
+			if dirtyDecode {
+				n = certs.Name{Type: 0x55, Label: []byte("stale-label-from-an-earlier-use")}
+			}
+			_, err := n.ReadFrom(r)
+			return n, err
+		},
 		eq: func(a, b any) string {
 			if !nameEq(a.(certs.Name), b.(certs.Name)) {
 				return "value"
@@ -460,7 +546,13 @@ func codecs() []*codec {
 			_, err := ch.WriteTo(&b)
 			return b.Bytes(), err
 		},
-		dec: func(r io.Reader) (any, error) { var ch certs.IDChunk; _, err := ch.ReadFrom(r); return ch, err },
+		dec: func(r io.Reader) (any, error) {
+			// (IDChunk.ReadFrom appends to the blocks already present: a reused
+			// chunk is not something the statement covers, so it always starts empty)
+			var ch certs.IDChunk
+			_, err := ch.ReadFrom(r)
+			return ch, err
+		},
 		eq: func(a, b any) string {
 			if !chunkEq(a.(certs.IDChunk), b.(certs.IDChunk)) {
 				return "value"
@@ -582,7 +674,17 @@ func codecs() []*codec {
 			_, err := m.WriteTo(&b)
 			return b.Bytes(), err
 		},
-		dec: func(r io.Reader) (any, error) { var m agv; _, err := m.ReadFrom(r); return m, err },
+		dec: func(r io.Reader) (any, error) {
+			var m agv
+			if dirtyDecode {
+				m.Data.Denial = "stale denial"
+				m.Data.Intent.TargetUsername = "stale-user"
+				m.Data.Intent.TargetSNI = certs.Name{Type: 0x55, Label: []byte("stale-sni")}
+				m.Data.Intent.AssociatedData.CommandGrantData.Cmd = "stale command"
+			}
+			_, err := m.ReadFrom(r)
+			return m, err
+		},
 		eq: func(a, b any) string {
 			x, y := a.(agv), b.(agv)
 			if x.MsgType != y.MsgType {
